@@ -333,6 +333,7 @@ package ggql
 //@ func parseExe
 //@   props C03
 //@   check panic {C03}
+//@   ensures[non-nil]{C07} exe != nil
 //@   requires root != nil
 //@   requires[finite-input] #rd <= #N
 //@   loop 0: invariant[scan] scanOk(addrof(p).parser) && addrof(p).root == root && addrof(p).exe != nil
